@@ -20,6 +20,14 @@ impl TryFrom<String> for BuildpackApi {
         // If no minor version is specified, it defaults to `0`.
         let (major, minor) = &value.split_once('.').unwrap_or((&value, "0"));
 
+        // Only plain digits are allowed: `u64::from_str` on its own would also accept a leading `+`.
+        if ![major, minor]
+            .iter()
+            .all(|part| part.bytes().all(|b| b.is_ascii_digit()))
+        {
+            return Err(Self::Error::InvalidBuildpackApi(value.clone()));
+        }
+
         Ok(Self {
             major: major
                 .parse()
